@@ -125,6 +125,9 @@ func c16State(cfg c04cfg) func(st *engine.Step) {
 			// (b) recovery request for an existing vs a non-existing account
 			pair("account-existence-recover", "browser="+b, flows.RecoverStart(s, b, U2), flows.RecoverStart(s, b, U0))
 			pair("account-existence-recover", "browser="+b+",locked-account", flows.RecoverStart(s, b, U1), flows.RecoverStart(s, b, U0))
+			if _, ok := w.DB.Users[U3]; ok {
+				pair("account-existence-recover", "browser="+b+",unconfirmed-account", flows.RecoverStart(s, b, U3), flows.RecoverStart(s, b, U0))
+			}
 		}
 	}
 }
@@ -210,6 +213,10 @@ func c16Scenarios(tier string) []engine.Scenario {
 				}
 				flows.SeedAcct(s, w, a1)
 				flows.SeedAcct(s, w, a2)
+				if hasConfirm {
+					// an existing account that never confirmed its address: still indistinguishable from a missing one
+					flows.SeedAcct(s, w, flows.Acct{PID: U3, Password: P3, Unconfirmed: true})
+				}
 				return w
 			},
 			Model: c04ModelStep(cfg), State: c16State(cfg),
